@@ -40,6 +40,7 @@ pub struct Report {
     start: Instant,
     pub evaluations: AtomicU64,
     distinct: Vec<Mutex<HashSet<u64>>>,
+    distinct_extra: AtomicU64,
     pub states: AtomicU64,
     pub transitions: AtomicU64,
     pub traces_validated: AtomicU64,
@@ -97,6 +98,7 @@ impl Report {
             start: Instant::now(),
             evaluations: AtomicU64::new(0),
             distinct: (0..SHARDS).map(|_| Mutex::new(HashSet::new())).collect(),
+            distinct_extra: AtomicU64::new(0),
             states: AtomicU64::new(0),
             transitions: AtomicU64::new(0),
             traces_validated: AtomicU64::new(0),
@@ -131,7 +133,11 @@ impl Report {
     }
 
     pub fn distinct_count(&self) -> u64 {
-        self.distinct.iter().map(|s| s.lock().unwrap().len() as u64).sum()
+        self.distinct.iter().map(|s| s.lock().unwrap().len() as u64).sum::<u64>() + self.distinct_extra.load(Ordering::Relaxed)
+    }
+    /// add cases whose distinctness is guaranteed by construction (e.g. unique states of a checker)
+    pub fn add_distinct(&self, n: u64) {
+        self.distinct_extra.fetch_add(n, Ordering::Relaxed);
     }
 
     pub fn sample(&self, v: Value) {
